@@ -28,6 +28,8 @@ def check(run, tier):
     progs = targeted.limit_programs("evo") + targeted.limit_programs("fluent")
     progs += targeted.round2_programs("evo") + targeted.round2_programs("fluent")
     progs += [p for dev in ("evo", "fluent") for p in targeted.config_programs(dev) if "limits" in p["id"]]
+    from ..drivers import evo
+    progs += [p for p in evo.targeted_programs() if "trough-scalar" in p["id"] or "all-eight" in p["id"]]
     n = 150 if q else 3000
     units = [Fraction(1), Fraction(1, 2**40), Fraction(2**10), Fraction(1, 4)]
     for i in range(n):
